@@ -6,8 +6,8 @@
    (rewards pool withdrawal) and of endOfBlock (expired / absent account resets,
    performPayout, recordProposal).
 
-   Transaction types: payment, key registration, asset config / transfer / freeze
-   (EvalApply.v); application calls, heartbeats and state proofs are excluded.
+   Transaction types: payment, key registration, asset config / transfer / freeze, application
+   calls with script programs (EvalApply.v); heartbeats and state proofs are excluded.
 
    Not modelled here (inputs or other properties): NextRewardsState (C25: the new rewards
    level is an input), validateForPayouts / proposerPayout (C24: proposer and payout are
